@@ -38,6 +38,7 @@ func TestReplay(t *testing.T) {
 		}
 		sort.Strings(files)
 		for _, path := range files {
+			fmt.Printf("REPLAY-START property=%s file=%s\n", id, path)
 			var c StreamCase
 			if err := json.Unmarshal(cases[path], &c); err != nil {
 				t.Fatalf("%s: %v", path, err)
